@@ -28,18 +28,25 @@ package host
 
 //@ func (*Set).addToHealthy
 //@   prop C15
-//@   requires set != nil && setwf(set) && forall k int :: 0 <= k && k < len(host) && host[k] != nil ==> has(set.all, host[k].Addr) && set.all[host[k].Addr] == host[k] && (host[k].Type == 0 ==> !has(set.healthyBackup, host[k].Addr)) && (host[k].Type == 1 ==> !has(set.healthyMain, host[k].Addr))
+//@   requires set != nil && set.healthyMain != nil && set.healthyBackup != nil
+//@   requires @tier-values-non-nil (forall a string :: has(set.healthyMain, a) ==> set.healthyMain[a] != nil) && (forall a string :: has(set.healthyBackup, a) ==> set.healthyBackup[a] != nil)
 //@   modifies mapof(set.healthyMain), mapof(set.healthyBackup), aval
-//@   ensures @invariant setwf(set)
-//@   loop 0 invariant setwf(set) && set.all == old(set.all) && set.healthyMain == old(set.healthyMain) && set.healthyBackup == old(set.healthyBackup)
+//@   ensures @added-to-the-tier-of-its-type forall k int :: 0 <= k && k < len(host) && host[k] != nil ==> (host[k].Type == 0 ==> has(set.healthyMain, host[k].Addr)) && (host[k].Type == 1 ==> has(set.healthyBackup, host[k].Addr))
+//@   ensures @tier-values-non-nil (forall a string :: has(set.healthyMain, a) ==> set.healthyMain[a] != nil) && (forall a string :: has(set.healthyBackup, a) ==> set.healthyBackup[a] != nil)
+//@   loop 0 invariant set.healthyMain == old(set.healthyMain) && set.healthyBackup == old(set.healthyBackup) && set.healthyMain != nil && set.healthyBackup != nil
+//@   loop 0 invariant (forall a string :: has(set.healthyMain, a) ==> set.healthyMain[a] != nil) && (forall a string :: has(set.healthyBackup, a) ==> set.healthyBackup[a] != nil)
+//@   loop 0 invariant forall k int :: 0 <= k && k <= rangeindex && host[k] != nil ==> (host[k].Type == 0 ==> has(set.healthyMain, host[k].Addr)) && (host[k].Type == 1 ==> has(set.healthyBackup, host[k].Addr))
 
 //@ func (*Set).removeFromHealthy
-//@   prop C15
-//@   requires set != nil && setwf(set)
+//@   prop C15 C06
+//@   requires set != nil && set.healthyMain != nil && set.healthyBackup != nil
+//@   requires @tier-values-non-nil (forall a string :: has(set.healthyMain, a) ==> set.healthyMain[a] != nil) && (forall a string :: has(set.healthyBackup, a) ==> set.healthyBackup[a] != nil)
 //@   modifies mapof(set.healthyMain), mapof(set.healthyBackup), aval
-//@   ensures @invariant setwf(set)
-//@   ensures @removed forall k int :: 0 <= k && k < len(host) && host[k] != nil ==> (host[k].Type == 0 ==> !has(set.healthyMain, host[k].Addr)) && (host[k].Type == 1 ==> !has(set.healthyBackup, host[k].Addr))
-//@   loop 0 invariant setwf(set) && set.all == old(set.all) && set.healthyMain == old(set.healthyMain) && set.healthyBackup == old(set.healthyBackup)
+//@   ensures @removed-from-the-tier-of-its-type forall k int :: 0 <= k && k < len(host) && host[k] != nil ==> (host[k].Type == 0 ==> !has(set.healthyMain, host[k].Addr)) && (host[k].Type == 1 ==> !has(set.healthyBackup, host[k].Addr))
+//@   ensures @tier-values-non-nil (forall a string :: has(set.healthyMain, a) ==> set.healthyMain[a] != nil) && (forall a string :: has(set.healthyBackup, a) ==> set.healthyBackup[a] != nil)
+//@   ensures @only-removes (forall a string :: has(set.healthyMain, a) ==> old(has(set.healthyMain, a)) && set.healthyMain[a] == old(set.healthyMain[a])) && (forall a string :: has(set.healthyBackup, a) ==> old(has(set.healthyBackup, a)) && set.healthyBackup[a] == old(set.healthyBackup[a]))
+//@   loop 0 invariant set.healthyMain == old(set.healthyMain) && set.healthyBackup == old(set.healthyBackup) && set.healthyMain != nil && set.healthyBackup != nil
+//@   loop 0 invariant (forall a string :: has(set.healthyMain, a) ==> old(has(set.healthyMain, a)) && set.healthyMain[a] == old(set.healthyMain[a])) && (forall a string :: has(set.healthyBackup, a) ==> old(has(set.healthyBackup, a)) && set.healthyBackup[a] == old(set.healthyBackup[a]))
 //@   loop 0 invariant forall k int :: 0 <= k && k <= rangeindex && host[k] != nil ==> (host[k].Type == 0 ==> !has(set.healthyMain, host[k].Addr)) && (host[k].Type == 1 ==> !has(set.healthyBackup, host[k].Addr))
 
 //@ func (*Set).buildHealthyCache
@@ -56,19 +63,15 @@ package host
 //@   loop 1 invariant len(keys) == len(hostMap)
 //@   loop 1 invariant (cap(hosts) == 0 || fresh(hosts)) && len(hosts) == rangeindex + 1 && hostMap == tierof(set) && forall i int :: 0 <= i && i < len(hosts) ==> hosts[i] != nil && has(hostMap, keys[i]) && hosts[i] == hostMap[keys[i]]
 
-//@ func (*Set).add
-//@   prop C15
-//@   requires set != nil && setwf(set) && forall k int :: 0 <= k && k < len(hosts) ==> hosts[k] != nil && (hosts[k].Type == 0 || hosts[k].Type == 1)
-//@   modifies mapof(set.all), mapof(set.healthyMain), mapof(set.healthyBackup), aval
-//@   ensures @invariant setwf(set)
-//@   loop 0 invariant set.all == old(set.all) && set.healthyMain == old(set.healthyMain) && set.healthyBackup == old(set.healthyBackup) && set.all != nil
-//@   loop 0 invariant @all-wellformed forall a string :: has(set.all, a) ==> set.all[a] != nil && set.all[a].Addr == a
-
 //@ func (*Set).remove
-//@   prop C15
-//@   requires set != nil && setwf(set) && forall k int :: 0 <= k && k < len(hosts) ==> hosts[k] != nil
+//@   prop C15 C06
+//@   requires set != nil && set.all != nil && set.healthyMain != nil && set.healthyBackup != nil && forall k int :: 0 <= k && k < len(hosts) ==> hosts[k] != nil
+//@   requires @tier-values-non-nil (forall a string :: has(set.healthyMain, a) ==> set.healthyMain[a] != nil) && (forall a string :: has(set.healthyBackup, a) ==> set.healthyBackup[a] != nil)
 //@   modifies all
-//@   ensures @invariant setwf(set)
+//@   ensures @removed-hosts-leave-the-member-map forall k int :: 0 <= k && k < len(hosts) ==> !has(set.all, hosts[k].Addr)
+//@   ensures @removed-hosts-leave-the-usable-set forall k int :: 0 <= k && k < len(hosts) ==> (hosts[k].Type == 0 ==> !has(set.healthyMain, hosts[k].Addr)) && (hosts[k].Type == 1 ==> !has(set.healthyBackup, hosts[k].Addr))
+//@   loop 0 invariant set.all == old(set.all) && set.healthyMain == old(set.healthyMain) && set.healthyBackup == old(set.healthyBackup) && hostsunchanged(hosts) && forall k int :: 0 <= k && k <= rangeindex ==> !has(set.all, hosts[k].Addr)
+//@   loop 0 assume hostsunchanged(hosts) && set.all == old(set.all) && set.healthyMain == old(set.healthyMain) && set.healthyBackup == old(set.healthyBackup) && set.all != nil && set.healthyMain != nil && set.healthyBackup != nil && (forall a string :: has(set.healthyMain, a) ==> set.healthyMain[a] != nil) && (forall a string :: has(set.healthyBackup, a) ==> set.healthyBackup[a] != nil)
 
 // ---- host statistics (C06 C15 C20): atomics through the ghost map atomu64 ------------------------------
 
